@@ -1245,6 +1245,27 @@ class Gen:
         rng = self.rng
         op = rng.choice(["matmul", "matmul", "tensordot", "vecdot", "outer", "qr", "svd", "svdvals"])
         fdt = rng.choice(["float64", "float64", "int64", "float32"])
+        if rng.random() < 0.2 and op in ("matmul", "tensordot", "vecdot", "outer"):
+            # the same array for both operands (different index expressions on one array)
+            if op == "outer":
+                i = self.pick_array(lambda v: v.ndim == 1 and v.size > 0 and v.dtype.kind in "iuf")
+                if i is None:
+                    i = self._add(self.new_leaf(ndim=1, dtype=fdt))
+                return self._add({"op": "outer", "in": [i, i], "p": {}}) is not None
+            if op == "vecdot":
+                i = self.pick_array(lambda v: v.ndim >= 1 and v.size > 0 and v.dtype.kind in "iuf")
+                if i is None:
+                    i = self._add(self.new_leaf(ndim=rng.choice([1, 2]), dtype=fdt))
+                a = self._vals[i]
+                return self._add({"op": "vecdot", "in": [i, i], "p": {"axis": rng.randrange(-a.ndim, 0)}}) is not None
+            n = rng.randint(2, self.maxdim)
+            i = self.pick_array(lambda v: v.ndim == 2 and v.shape[0] == v.shape[1] and v.shape[0] > 1 and v.dtype.kind in "iuf")
+            if i is None:
+                i = self._add(self.new_leaf(shape=[n, n], dtype=fdt))
+            if op == "matmul":
+                return self._add({"op": "matmul", "in": [i, i], "p": {"operator": True} if rng.random() < 0.3 else {}}) is not None
+            axes = rng.choice([1, [[0], [1]], [[1], [0]], [[0], [0]], [[0, 1], [1, 0]]])
+            return self._add({"op": "tensordot", "in": [i, i], "p": {"axes": axes}}) is not None
         if op == "matmul":
             n, k, m = (rng.randint(1, self.maxdim) for _ in range(3))
             form = rng.choice(["2x2", "2x2", "1x2", "2x1", "1x1", "bx2", "bxb"])
@@ -1352,8 +1373,14 @@ class Gen:
                 ins.append(i)
                 continue
             leaf = self.new_leaf(shape=list(a.shape), dtype=str(a.dtype))
-            if self.hostile == 0 and rng.random() < 0.5:
-                pass
+            if rng.random() < 0.4 and self._nodes[i]["op"] == "leaf" and a.ndim > 0:
+                # different chunk sizes with the same number of blocks per axis (e.g. 9 = 4+4+1 = 3+3+3)
+                ch = []
+                for d, c in zip(a.shape, self._nodes[i]["p"]["chunks"]):
+                    nb = -(-d // c) if c else 1
+                    alts = [x for x in range(1, d + 1) if x != c and -(-d // x) == nb]
+                    ch.append(rng.choice(alts) if alts else c)
+                leaf["p"]["chunks"] = ch
             j = self._add(leaf)
             if j is None:
                 return False
